@@ -58,3 +58,19 @@ Theorem C07_vfund_wrong_party_refuted : exists c r sg ct,
   countersigns original c r = Some sg /\ ~ safe_change c (tx_st ct) r (r_dec (handle_update_req original c r)).
 Proof. exact C07_vfund_wrong_party_refuted. Qed.
 Print Assumptions C07_vfund_wrong_party_refuted.
+
+(* an interceptor holds the identity and the balances of its sub-channel, nothing of the parent state
+   at registration: the update is judged against the parent state at arrival. An update that is
+   exactly the funding (settlement) for another state `old` of the parent is accepted only if `old`
+   agrees with the current state (funding: locked funds and balances; settlement: balances). *)
+Theorem C07_funding_judged_against_current : forall cur old new ic,
+  fund_filter repaired cur new ic = true ->
+  funded old new (ic_id ic) (bals_sum (ic_bals ic)) [] (ic_bals ic) ->
+  locked_of old = locked_of cur /\ forall a p, bal_at (bals_of old) a p = bal_at (bals_of cur) a p.
+Proof. exact funding_judged_against_current. Qed.
+Print Assumptions C07_funding_judged_against_current.
+Theorem C07_settlement_judged_against_current : forall cur old new ic,
+  settle_filter repaired cur new ic = Some true -> settled old new (ic_id ic) (ic_bals ic) ->
+  forall a p, bal_at (bals_of old) a p = bal_at (bals_of cur) a p.
+Proof. exact settlement_judged_against_current. Qed.
+Print Assumptions C07_settlement_judged_against_current.
